@@ -55,6 +55,7 @@ func (m *expirationMap[_]) add(key, conflict uint64, expiration time.Time) {
 	bucketNum := storageBucket(expiration)
 	m.Lock()
 	defer m.Unlock()
+	bucketNum = m.sweepableBucket(bucketNum)
 
 	b, ok := m.buckets[bucketNum]
 	if !ok {
@@ -62,6 +63,18 @@ func (m *expirationMap[_]) add(key, conflict uint64, expiration time.Time) {
 		m.buckets[bucketNum] = b
 	}
 	b[key] = conflict
+}
+
+// sweepableBucket returns the bucket a key must be filed in so that cleanup
+// still visits it. A key can be filed after cleanup has already passed its
+// bucket (the write waited in the buffer, or its TTL is shorter than the
+// sweep lag); cleanup only moves forward, so such a key goes into the next
+// bucket to be cleaned. Callers must hold the lock.
+func (m *expirationMap[_]) sweepableBucket(bucketNum int64) int64 {
+	if bucketNum <= m.lastCleanedBucketNum {
+		return m.lastCleanedBucketNum + 1
+	}
+	return bucketNum
 }
 
 func (m *expirationMap[_]) update(key, conflict uint64, oldExpTime, newExpTime time.Time) {
@@ -83,7 +96,7 @@ func (m *expirationMap[_]) update(key, conflict uint64, oldExpTime, newExpTime t
 		return
 	}
 
-	newBucketNum := storageBucket(newExpTime)
+	newBucketNum := m.sweepableBucket(storageBucket(newExpTime))
 	newBucket, ok := m.buckets[newBucketNum]
 	if !ok {
 		newBucket = make(bucket)
